@@ -70,6 +70,19 @@ def gmat(rng, quick):
         yield f"rank1-spread[n={n}]", np.outer(v, v)
     v = np.array([np.sqrt(0.4), np.sqrt(0.6)])
     yield "rank1-0.4/0.6", np.outer(v, v)
+    # a unit eigenvector with a tiny (8e-5) amplitude on the coordinates of the first sub-block while other unit eigenvectors
+    # are large there: the sub-block has an eigenvalue ~6e-9 that is NOT zero (pruning "null" directions of a sub-block by a
+    # threshold destroys the eigenvector); sub-block sizes 3 and 7 of the block-divided solver
+    for t in (3, 7):
+        n = 5 * t
+        for _ in range(20):
+            v = rng.normal(size=n)
+            v[:t] *= 8e-5 / np.linalg.norm(v[:t])
+            V, _r = np.linalg.qr(np.column_stack([v] + [rng.normal(size=n) for _ in range(3)]))
+            P_ = V @ V.T
+            if np.trace(P_[:t, :t]) > 0.6 and abs(np.linalg.norm(V[:t, 0]) - 8e-5) < 4e-5:
+                break
+        yield f"tiny-amplitude-on-subblock[n={n},t={t}]", (P_ + P_.T) / 2
     # one dense connected block beyond the 1000-row switch, with eigenvalues at the edge of the allowed gap (1 - 1.1e-3):
     # a tolerance that grows with the matrix size must not accept them
     n = 1100
@@ -125,3 +138,20 @@ def run_solver(name, M, target=None, threshold=None):
     finally:
         for k in env:
             os.environ.pop(k, None)
+
+
+def subblock_has_near_unit_eigenvalue(M, target):
+    """Diagnosis for the known finding C15/large-subblocks/isclose-rtol: some principal sub-block (contiguous chunks of `target`
+    coordinates of a connected block) has an eigenvalue that np.isclose(e, 1) accepts (|e - 1| <= 1e-8 + 1e-5) but that is not 1
+    to 1e-8."""
+    import scipy.sparse.csgraph as csg
+    n = M.shape[0]
+    ncomp, lab = csg.connected_components(sp.csr_array(np.abs(M) > 0))
+    for c in range(ncomp):
+        idx = np.nonzero(lab == c)[0]
+        for b in range(0, len(idx), max(1, int(target))):
+            ch = idx[b:b + int(target)]
+            w = np.linalg.eigvalsh(M[np.ix_(ch, ch)])
+            if np.any((np.abs(w - 1) <= 1e-8 + 1e-5) & (np.abs(w - 1) > 1e-8)):
+                return True
+    return False
